@@ -237,6 +237,17 @@ def _sim(meth, phase, stack, memory, claims, args):
     except BaseException as e:
         return ('raise', type(e).__name__)
     return ('ok', list(out.getvalue()), i.stack, i.memory, [c.pattern for c in i.claims])
+def _simseq(phase, stack, memory, claims, ops):
+    # several calls on ONE interpreter (what an earlier call leaves behind must not change a later one)
+    out = io.BytesIO(); out.close = lambda: None
+    i = SerializingInterpreter(ExecutionPhase(phase), out, [Claim(c) for c in claims], io.BytesIO(), io.BytesIO())
+    i.stack = list(stack); i.memory = list(memory)
+    try:
+        for meth, args in ops:
+            getattr(i, meth)(*args)
+    except BaseException as e:
+        return ('raise', type(e).__name__)
+    return ('ok', list(out.getvalue()), i.stack, i.memory, [c.pattern for c in i.claims])
 """
 
 
@@ -331,6 +342,12 @@ def sim_bounded(meth, phase, root, tier, seed):
             t = rng.choice(mem)
             stack = below
             args = ["'id'", _term_py(t)]
+            others = [x for x in mem if x != t]
+            if others and rng.random() < 0.5:
+                # the same label used for two different entries, on one interpreter
+                t2 = rng.choice(others)
+                ops = f"[('load', ['id', {_term_py(t)}]), ('pop', [{_term_py(t)}]), ('load', ['id', {_term_py(t2)}])]"
+                args = ('seq', ops)
         elif meth == 'metavar':
             stack = below
             lists = [tuple(rng.sample([0, 1, 2], rng.randint(0, 2))) for _ in range(5)]
@@ -342,7 +359,11 @@ def sim_bounded(meth, phase, root, tier, seed):
         else:
             return None, 0
         cases.append((stack, mem, claims, args))
-    jobs = [{'expr': sim_case_expr(meth, phase, s, m, c, a)} for s, m, c, a in cases]
+    def expr_of(s, m, c, a):
+        if isinstance(a, tuple) and a[0] == 'seq':
+            return sim_case_expr(meth, phase, s, m, c, []).replace(f'_sim({meth!r}, ', '_simseq(', 1).rsplit(', [', 1)[0] + ', ' + a[1] + ')'
+        return sim_case_expr(meth, phase, s, m, c, a)
+    jobs = [{'expr': expr_of(s, m, c, a)} for s, m, c, a in cases]
     if not jobs:
         return None, 0
     reals = rp.run_real(jobs, prelude=SIM_PRELUDE, root=root)
